@@ -29,7 +29,15 @@ fn read_response(s: &mut TcpStream, timeout_ms: u64) -> Vec<u8> {
 
 /// drop the server while a request is handed out: accepting must stop, answering must still work
 pub fn drop_case(id: usize, unix: bool, tmpdir: &str) -> String {
-    let path = format!("{}/srv-{}-{}.sock", tmpdir, std::process::id(), id);
+    // (socket paths are file names, not text: now and then one that is not valid UTF-8)
+    let path: std::ffi::OsString = if id % 4 == 1 {
+        use std::os::unix::ffi::OsStringExt;
+        let mut b = format!("{}/srv-{}-{}-", tmpdir, std::process::id(), id).into_bytes();
+        b.extend_from_slice(b"\xff\xfe.sock");
+        std::ffi::OsString::from_vec(b)
+    } else {
+        format!("{}/srv-{}-{}.sock", tmpdir, std::process::id(), id).into()
+    };
     let server = if unix {
         let _ = std::fs::remove_file(&path);
         Server::http_unix(std::path::Path::new(&path)).unwrap()
@@ -48,7 +56,7 @@ pub fn drop_case(id: usize, unix: bool, tmpdir: &str) -> String {
         let rq = server.recv_timeout(Duration::from_secs(2)).unwrap().unwrap();
         // a second name of the socket file: removing the path must not be what makes connecting
         // fail — the listener itself has to be gone
-        let link = format!("{}.link", path);
+        let link = { let mut l = path.clone(); l.push(".link"); l };
         let _ = std::fs::remove_file(&link);
         let linked = std::fs::hard_link(&path, &link).is_ok();
         drop(server);
